@@ -54,7 +54,9 @@ def selective_cfgs(fields, rng):
 
 def eager_cfgs(ns):
     db = ns.split(".")[0]
-    return [Cfg(eager=(ns,)), Cfg(eager=(db,), w=True), Cfg(eager=("nomatch." + ns, ""), n=True), Cfg(eager=("zzz",))]
+    # prefixes are raw string prefixes of attr.ns: whole namespace, database, database with its dot, cut inside a component
+    return [Cfg(eager=(ns,)), Cfg(eager=(db,), w=True), Cfg(eager=("nomatch." + ns, ""), n=True), Cfg(eager=("zzz",)),
+            Cfg(eager=(db + ".",), w=True), Cfg(eager=(ns[:-1],), w=True), Cfg(eager=(db[:-1],), w=True, n=True), Cfg(eager=(ns[:-2], "q"))]
 
 
 def line_ops(seed, count, exotic=True, prefix="L"):
@@ -68,7 +70,7 @@ def line_ops(seed, count, exotic=True, prefix="L"):
         text = to_json(tree)
         cfgs = [PRESETS[(i + j) % len(PRESETS)] for j in range(2)]
         cfgs += selective_cfgs(g.fields, rng)[: 1 + i % 2]
-        cfgs += eager_cfgs(g.ns)[i % 4: i % 4 + 1]
+        cfgs += eager_cfgs(g.ns)[i % 8: i % 8 + 1]
         for j, c in enumerate(cfgs):
             oid = "%s%d.%d" % (prefix, i, j)
             ops.append((oid, ["line", cfg_str(c, tree), hx(text)]))
@@ -216,6 +218,14 @@ def text_ops(seed, count, prefix="T"):
     ops.append((prefix + "x2", ["parse", hx('{"a":%s, "b" : [ 1 , 2 ] ,\t"c":{ } }' % txt)]))
     ops.append((prefix + "x3", ["parse", hx('{"a":"\\u00e9\\ud83d\\ude00\\/\\b\\f"}')]))
     ops.append((prefix + "x4", ["line", Cfg().s(), hx('  {"c":"COMMAND","attr":{"command":{"filter":{"k":%s}}}}  ' % txt)]))
+    # every ASCII character on its own inside an otherwise plain key / value (fast paths in a serialiser), and text that is already escaped once
+    single = Obj([("k%sz" % chr(i), "v%sz" % chr(i)) for i in range(0x80)] + [("u" + c, c) for c in "\u0080\u00ff\u07ff\u0800\u2028\u2029\ud7ff\ue000\ufffd\U00010000\U0010ffff"])
+    ops.append((prefix + "x5", ["print", enc(single)]))
+    ops.append((prefix + "x6", ["line", Cfg().s(), hx(to_json(Obj([("c", "NETWORK"), ("attr", single)])))]))
+    for j, t in enumerate(KEPT_TEXTS):
+        o = Obj([("c", "COMMAND"), ("msg", t), (t, t), ("attr", Obj([("appName", t), (t + "k", [t]), ("command", Obj([("find", "c"), ("filter", Obj([(t + "f", t)])), ("comment", t)]))]))])
+        ops.append(("%sk%d" % (prefix, j), ["line", Cfg(n=bool(j & 1)).s(), hx(to_json(o))]))
+        ops.append(("%skp%d" % (prefix, j), ["print", enc(o)]))
     return ops
 
 
@@ -256,16 +266,192 @@ def stream_ops(seed, count, prefix="R"):
     return ops
 
 
+SESSION_META = {}   # group id -> Cfg of the last session_ops call
+
+
+def cmd_line(cmd, ns="shop.customers", extra=()):
+    return Obj([("t", Obj([("$date", "2024-05-01T12:00:00.000+00:00")])), ("s", "I"), ("c", "COMMAND"), ("id", Num("51803")), ("ctx", "conn7"),
+                ("msg", "Slow query"), ("attr", Obj([("type", "command"), ("ns", ns), ("command", cmd)] + list(extra)))])
+
+
+def session_ops(tables, seed, count, prefix="H"):
+    """Sessions: many lines under ONE configuration, processed by one harness process in order (the
+    harness calls the setters once per run of equal configuration strings, as the CLI does). The model
+    treats every line on its own, so any dependence of a line's output on the lines before it - a cache,
+    a memo, a counter, an operator table changed in place - shows up as a disagreement. Every group
+    (id prefix before the first '.') runs in its own harness process; most groups come in two orders."""
+    rng = SplitMix(seed ^ 0x5E55)
+    groups = []
+    SESSION_META.clear()
+
+    def group(cfg, trees, raw=()):
+        SESSION_META["%s%d" % (prefix, len(groups))] = cfg
+        names = set()
+        for t in trees:
+            all_strings(t, names)
+        cs = cfg_str(cfg, None, extra_strings=names)
+        g = len(groups)
+        ops = []
+        for i, t in enumerate(trees):
+            ops.append(("%s%d.%d" % (prefix, g, i), ["line", cs, hx(to_json(t))]))
+        for i, b in enumerate(raw):
+            ops.append(("%s%d.r%d" % (prefix, g, i), ["line", cs, hx(b)]))
+        groups.append(ops)
+
+    def both(cfg, a, b):
+        group(cfg, a + b)
+        group(cfg, b + a)
+
+    find = lambda flt, coll="customers", **kw: Obj([("find", coll), ("filter", flt)] + list(kw.items()) + [("$db", "shop")])
+    agg = lambda pipe, coll="customers": Obj([("aggregate", coll), ("pipeline", pipe), ("$db", "shop")])
+
+    # (a) a dotted key that spells a nested path, selective mode
+    for a, b in [("user", "ssn"), ("a", "b"), ("p", "q")]:
+        nested = [cmd_line(find(Obj([(a, Obj([(b, "zq1xs")]))]))), cmd_line(find(Obj([(a, Obj([(b, Obj([("$in", ["zq2xs", "zq3xs"])]))]))]))),
+                  cmd_line(agg([Obj([("$match", Obj([(a, Obj([(b, "zq4xs")]))]))])]))]
+        dotted = [cmd_line(find(Obj([(a + "." + b, "zq5xs")]))), cmd_line(find(Obj([(a + "." + b, Obj([("$in", ["zq6xs"])]))]))),
+                  cmd_line(agg([Obj([("$match", Obj([(a + "." + b, "zq7xs")]))])]))]
+        for c in (Cfg(re="^%s$" % b), Cfg(re="^%s$" % a, n=True), Cfg(re="^%s\\.%s$" % (a, b))):
+            both(c, nested, dotted)
+    # (b) a single key that spells a table path with dots, after / before the genuine nested path
+    cases = []
+    seen = set()
+    for tname, path, vk, val in sweep_cases(tables):
+        if len(path) >= 2 and (tname, path) not in seen:
+            seen.add((tname, path))
+            cases.append((tname, path))
+    rng2 = SplitMix(seed ^ 0xB0B)
+    if count < len(cases):
+        cases = sorted(cases, key=lambda c: rng2.below(1 << 30))[:count]
+    for tname, path in cases:
+        lit = "zq9xs"
+        genuine, alias = [], []
+        for kind, tree in wrap_positions(tname, path, "zq8xs")[:2]:
+            if kind == "stage":
+                genuine.append(cmd_line(agg([tree])))
+            elif kind == "query":
+                genuine.append(cmd_line(find(tree)))
+        full = ".".join(path)
+        tail = ".".join(path[1:])
+        if tname in ("agg", "sagg"):
+            alias += [cmd_line(agg([Obj([(full, lit)])])), cmd_line(agg([Obj([(path[0], Obj([(tail, lit)]))])])), cmd_line(find(Obj([(full, lit)])))]
+            alias.append(cmd_line(Obj([("insert", "customers"), ("documents", [Obj([(full, lit)])]), ("$db", "shop")])))
+        elif tname == "search":
+            alias += [cmd_line(agg([Obj([("$search", Obj([(full, lit)]))])])), cmd_line(agg([Obj([("$search", Obj([(path[0], Obj([(tail, lit)]))]))])])),
+                      cmd_line(agg([Obj([("$search", Obj([("index", "default"), (full, lit)]))])]))]
+        else:
+            alias += [cmd_line(find(Obj([(full, lit)]))), cmd_line(find(Obj([("fld", Obj([(full, lit)]))]))), cmd_line(find(Obj([(path[0], Obj([(tail, lit)]))])))]
+        both(Cfg(), genuine, alias)
+    # (c) spellings of one e-mail address / one ordinary string
+    e = "alice.smith@example.com"
+    clean = [cmd_line(find(Obj([("m", e)])))]
+    odd = [cmd_line(find(Obj([("m", v)]))) for v in (" " + e, e + " ", e.upper(), "\t" + e, e + "\n", "Alice.Smith@Example.COM", e + ".", "x" + e)]
+    for c in (Cfg(), Cfg(repl="X"), Cfg(enc=1)):
+        both(c, clean, odd)
+    # (d) namespaces alternating under --redactFieldNames
+    def nsline(ns):
+        db, coll = ns.split(".", 1)
+        return cmd_line(Obj([("find", coll), ("filter", Obj([("age", Obj([("$gt", Num("5"))])), ("name", "zq1xs")])), ("sort", Obj([("age", Num("1"))])), ("$db", db)]), ns=ns,
+                        extra=[("planSummary", "IXSCAN { age: 1, name: -1 }")])
+    chosen = [nsline("shop.customers"), nsline("shop.customers")]
+    foreign = [nsline("other.coll"), nsline("shop.cust"), nsline("shop2.customers"), nsline("shop.customers2"), nsline("zzz.customers")]
+    for c in (Cfg(eager=("shop.customers",)), Cfg(eager=("shop.",), w=True), Cfg(eager=("shop.customers", "nomatch"), n=True)):
+        both(c, chosen, foreign)
+        group(c, [chosen[0], foreign[0], chosen[1], foreign[1], foreign[2], chosen[0], foreign[3]])
+    # (e) geo operators in selective mode: a path outside the pattern, then one inside it
+    def geo(path, op="geoWithin"):
+        shape = Obj([("circle", Obj([("center", Obj([("type", "Point"), ("coordinates", [Num("91000137.5"), Num("91000237.25")])])), ("radius", Num("91000337"))]))]) if op == "geoWithin" else \
+            Obj([("relation", "within"), ("geometry", Obj([("type", "Polygon"), ("coordinates", [[[Num("91000437"), Num("91000537")], [Num("91000637"), Num("91000737")]]])]))])
+        return cmd_line(agg([Obj([("$search", Obj([(op, Obj([("path", path)] + list(shape)))]))])]))
+    for op in ("geoWithin", "geoShape"):
+        for c in (Cfg(re="^loc$"), Cfg(re="^loc$", n=True), Cfg(re="loc", n=True, b=True)):
+            both(c, [geo("other", op), geo("elsewhere", op)], [geo("loc", op), geo("loc", op)])
+    # (f) a flood of lines cut inside nested containers, then ordinary lines
+    good = [cmd_line(find(Obj([("k", "zq1xs"), ("n", Num("91000137"))])))]
+    flood = [b'{"a":[[[[{"b":', b'{"a":{"b":{"c":[[[', b'{"c":"COMMAND","attr":{"command":{"filter":{"a":[[[{"x":1,}]]]}}}}', b'{"a":[[[[[[[[1 2]]]]]]]]}']
+    nfl = 3200 if count >= 40 else 1800
+    group(Cfg(n=True), good, raw=[flood[i % len(flood)] for i in range(nfl)])
+    groups[-1].extend(("%s%d.t%d" % (prefix, len(groups) - 1, i), op[1]) for i, op in enumerate(groups[-1][:1] * 3))
+    # (g) one literal in several classes, one after the other
+    lit = "2024-05-01T12:00:00.000Z"
+    oid = "65f0a1b2c3d4e5f6a7b8c9d0"
+    multi = [cmd_line(find(Obj([("d", Obj([("$date", lit)]))]))), cmd_line(find(Obj([("d", lit)]))), cmd_line(find(Obj([("d", Obj([("$oid", oid)]))]))), cmd_line(find(Obj([("d", oid)]))),
+             cmd_line(find(Obj([("d", Obj([("$oid", e)]))]))), cmd_line(find(Obj([("d", e)]))), cmd_line(find(Obj([("d", Obj([("$date", e)]))]))),
+             cmd_line(find(Obj([("d", Obj([("$binary", Obj([("base64", "QUJD"), ("subType", "00")]))]))]))), cmd_line(find(Obj([("d", "QUJD")])))]
+    for c in (Cfg(), Cfg(enc=1), Cfg(n=True, b=True, w=True)):
+        both(c, multi[:5], multi[5:])
+    # (h) grammar-generated sessions: many lines from one generator (shared field names and namespaces) under one configuration
+    for i in range(max(2, count // 8)):
+        g = G(rng.fork(), exotic=bool(i & 1))
+        trees = [g.line() for _ in range(12 + rng.below(20))]
+        trees += [other_line(rng, i) for _ in range(3)]
+        sel = selective_cfgs(g.fields, rng)
+        cands = [PRESETS[i % len(PRESETS)], sel[i % len(sel)], eager_cfgs(g.ns)[i % 4], Cfg(enc=1, w=True)]
+        c = cands[i % len(cands)]
+        group(c, trees)
+        group(c, list(reversed(trees)))
+    return groups
+
+
+def go_exec_groups(groups):
+    """every group in its own harness process, bracketed by a hash of the operator tables"""
+    res = {}
+    mutated = []
+    for ops in groups:
+        if not ops:
+            continue
+        gid = str(ops[0][0]).split(".")[0]
+        r = go_exec([(gid + ".th0", ["tablehash"])] + ops + [(gid + ".th1", ["tablehash"])])
+        if r.get(gid + ".th0") != r.get(gid + ".th1"):
+            mutated.append(gid)
+        res.update(r)
+    return res, mutated
+
+
 def norm_stream(res):
     # go: "<status> <hex> r=.. w=.. calls=.."   lean: "<status> <hex>"
     f = res.split(" ")
     return " ".join(f[:2]) if len(f) >= 2 else res
 
 
+def find_table_mutation(ops):
+    """smallest prefix of ops after which the operator tables differ from their initial value"""
+    h0 = go_exec([("th", ["tablehash"])]).get("th")
+
+    def changed(n):
+        r = go_exec(ops[:n] + [("th", ["tablehash"])])
+        return r.get("th") != h0
+    if not changed(len(ops)):
+        return None
+    lo, hi = 0, len(ops)
+    while hi - lo > 1:
+        mid = (lo + hi) // 2
+        if changed(mid):
+            hi = mid
+        else:
+            lo = mid
+    return ops[hi - 1]
+
+
 def compare(ops, normalize=None, max_report=10):
-    g = go_exec(ops)
-    m = lean_exec(ops)
     diffs = []
+    if ops and isinstance(ops[0], list):     # grouped (session family)
+        groups = ops
+        ops = [o for grp in groups for o in grp]
+        g, mutated = go_exec_groups(groups)
+        for gid in mutated:
+            grp = [grp for grp in groups if str(grp[0][0]).split(".")[0] == gid][0]
+            op = find_table_mutation(grp)
+            if op is not None:
+                diffs.append((str(op[0]) + ".tables", op[1], "operator tables changed in place while processing this line", "operator tables are constants"))
+    else:
+        br = [("__th0", ["tablehash"])] + list(ops) + [("__th1", ["tablehash"])]
+        g = go_exec(br)
+        if g.get("__th0") != g.get("__th1"):
+            op = find_table_mutation(list(ops))
+            if op is not None:
+                diffs.append((str(op[0]) + ".tables", op[1], "operator tables changed in place while processing this operation", "operator tables are constants"))
+    m = lean_exec(ops)
     for oid, f in ops:
         a, b = g.get(str(oid)), m.get(str(oid))
         if f[0] == "stream" and a and b:
@@ -319,4 +505,6 @@ def family_ops(fam, tables, seed, tier, intensify=False):
         return text_ops(seed, 2400 if big else 240)
     if fam == "stream":
         return stream_ops(seed, 400 if big else 40)
+    if fam == "session":
+        return session_ops(tables, seed, 400 if big else 24)
     raise KeyError(fam)
